@@ -134,7 +134,8 @@ def cache_history(dc, sc, res, rng, kind, label):
              if kind == 'cache' or s[0] in FANOUT_OPS]
     # a handle caches its settings when it is opened; switching statistics at run time through one handle is not a
     # "setting the cache was created with" and is not propagated to live handles by design, so it is not generated
-    steps = [(op, a, (dict(k, enable=bool(cfg['statistics'])) if op == 'stats' else k)) for op, a, k in steps]
+    steps = [(op, a, (dict(k, enable=bool(cfg['statistics'])) if op == 'stats' else k)) for op, a, k in steps
+             if op not in ('reset', 'create_tag_index', 'drop_tag_index')]
     made = {'n': 0}
 
     def fresh():
@@ -211,6 +212,7 @@ def cache_history(dc, sc, res, rng, kind, label):
                             sub.append(steps[i])
                         i += 1
                     sub = [(op, args, kw)] + sub
+                    sub = [(o, a, ({} if type(k.get('now')) is tuple else k)) for o, a, k in sub]
                     # what a lazy cull removes inside a batch executed elsewhere cannot be observed call by call:
                     # no expired item may exist when the batch starts and none may expire inside it
                     sub = [(o, a, (dict(k, expire=None) if k.get('expire') is not None and k['expire'] < 50 else k))
